@@ -208,11 +208,12 @@ deriving DecidableEq, Repr
 
 def titleLine (t : String) (w : Nat) : Str := ljust w '-' t.toList
 
-/-- lines written before the data section title, and the LASFile afterwards (WRAP replaced in ~Version,
-~Well / ~Parameter values standardised in place).
-`wrap = none`: `las.version["WRAP"]` must exist (KeyError otherwise). -/
-def headerLines (version : String) (wrap : Option Bool) (headerWidth : Nat) (las : WLas) :
-    Except Err (List Str × WLas) := do
+/-- the five header sections in the order `write` emits them, as (title text, lines after the title), and the
+LASFile afterwards (WRAP replaced in ~Version, ~Well / ~Parameter values standardised in place).
+`wrap = none`: `las.version["WRAP"]` must exist (KeyError otherwise).  Nothing here depends on `header_width`
+or on any of the data-section options. -/
+def headerSections (version : String) (wrap : Option Bool) (las : WLas) :
+    Except Err (List (String × List Str) × WLas) := do
   let vsec ← match wrap with
     | none =>
       match findFirst (fun x => cmpStr las.versionTr x.session "WRAP".toList) las.version with
@@ -229,13 +230,16 @@ def headerLines (version : String) (wrap : Option Bool) (headerWidth : Nat) (las
   let lc ← writeSection version "Curves" las.curves
   let params := standardizeItems las.params
   let lp ← writeSection version "Parameter" params
-  let lines :=
-    titleLine "~Version " headerWidth :: lv ++
-    titleLine "~Well " headerWidth :: lw ++
-    titleLine "~Curve Information " headerWidth :: lc ++
-    titleLine "~Params " headerWidth :: lp ++
-    titleLine "~Other " headerWidth :: splitlines las.other
-  pure (lines, { las with version := vsec, well := well, params := params })
+  pure ([("~Version ", lv), ("~Well ", lw), ("~Curve Information ", lc), ("~Params ", lp),
+         ("~Other ", splitlines las.other)],
+        { las with version := vsec, well := well, params := params })
+
+/-- lines written before the data section title: each title is `title.ljust(header_width, "-")` -/
+def headerLines (version : String) (wrap : Option Bool) (headerWidth : Nat) (las : WLas) :
+    Except Err (List Str × WLas) :=
+  match headerSections version wrap las with
+  | .error e => .error e
+  | .ok (secs, las') => .ok (secs.flatMap (fun tl => titleLine tl.1 headerWidth :: tl.2), las')
 
 /-! ## reading one line back -/
 
